@@ -466,7 +466,7 @@ func C04(c *core.Ctx) {
 		j := (i*7919 + 13) % len(ms)
 		c.Sample(map[string]any{"cfg": ms[j].Cfg, "permitted": ms[j].Allowed, "method": cases[j].Method, "notations": cases[j].Notes, "types": cases[j].Decls})
 	}
-	c.Set("rule", "one destination field x one same/case-variant/differently named candidate (field, value-receiver getter, pointer-receiver getter) over all pairs of the 36-type alphabet x 2^4 toggles x match rule, enumerated by TLC (MatchField.tla) with the set of permitted outcomes; each is concretised, run through the tool and the projected outcome must be in the set. Non-trivial: permitted set is not {nomatch}; distinct by (types, candidate kind, toggles)")
+	c.Set("rule", "one destination field x one same/case-variant/differently named candidate (field, value-receiver getter, pointer-receiver getter) over all pairs of the 38-type alphabet x 2^4 toggles x match rule, enumerated by TLC (MatchField.tla) with the set of permitted outcomes; each is concretised, run through the tool and the projected outcome must be in the set. Non-trivial: permitted set is not {nomatch}; distinct by (types, candidate kind, toggles)")
 }
 
 // c16Static runs the slice cases of the one-field family (static side of C16).
